@@ -55,6 +55,7 @@ EncU(v, t) ==
 D0 == {Glob("X1"), Glob("S1"), Glob("S2"), Glob("C1"), IntLit(1), Empty}
 A0 == D0 \cup {La}
 Ixs == {<<1>>, <<2>>, <<1,2>>, <<3>>}
+Ixs0 == Ixs \cup {<<0>>, <<1, 0>>, <<0, 1>>}        \* an index written as 0 is in no tuple (stage 1 only)
 SetBinLike == SetBin \cup Arith \cup {"DECART", "TUPLE", "ENUM"}
 Un == {"CARD", "DEBOOL", "BOOL", "BOOLEAN", "REDUCE"}
 LogOps2(S, T) == {Node(o, <<x, y>>) : o \in Preds, x \in S, y \in T}
@@ -75,6 +76,7 @@ Doms == D0 \cup {X1xX1, X1xC1, Node("BOOLEAN", <<Glob("X1")>>)}
 
 SeedFilter ==
        {Idx("FILTER", ix, <<p, a>>) : ix \in {<<1>>, <<2>>, <<3>>, <<1,2>>, <<2,1>>}, p \in D0 \cup {X1xX1, One}, a \in {Glob("S1"), Glob("S2"), Empty, X1xX1, X1xC1}}
+  \cup {Idx("FILTER", ix, <<p, a>>) : ix \in {<<0>>, <<0, 1>>}, p \in {Glob("X1")}, a \in {Glob("S1"), X1xX1}}
   \cup {Idx("FILTER", ix, <<p, q, a>>) : ix \in {<<1,2>>, <<2,1>>, <<1,1>>, <<1>>, <<1,2,1>>}, p \in {Glob("X1"), Glob("C1"), Empty, One}, q \in {Glob("X1"), Glob("C1"), Empty, One}, a \in {Glob("S1"), X1xX1, X1xC1}}
 RecBodies == {Node("UNION", <<La, Glob("X1")>>), Node("SET_MINUS", <<La, La>>), Node("UNION", <<La, One>>), Node("UNION", <<La, Glob("S1")>>),
               Node("PLUS", <<La, IntLit(1)>>), Node("ENUM", <<La>>), La, Node("UNION", <<La, Node("ENUM", <<Glob("X1")>>)>>),
@@ -108,6 +110,10 @@ SeedBind == {Node(q, <<TupAB, d, p>>) : q \in Quant \cup {"DECLARATIVE"}, d \in 
        \cup {Node(q, <<La, d, Node("EXISTS", <<La, d, Node("EQUAL", <<La, La>>)>>)>>) : q \in Quant, d \in {Glob("X1")}}
        \cup {Node("AND", <<Node("FORALL", <<La, Glob("X1"), Node("EQUAL", <<La, La>>)>>), Node("EQUAL", <<La, Glob("X1")>>)>>),
              Node("AND", <<Node("FORALL", <<La, Glob("X1"), Node("EQUAL", <<La, La>>)>>), Node("EXISTS", <<La, Glob("S2"), Node("EQUAL", <<La, La>>)>>)>>)}
+\* an enumerated declaration that mixes a tuple pattern with a plain variable: "\A (a,b),c \in S1": c is a pair
+MixPreds == {Node("IN", <<Lc, Glob("S1")>>), Node("EQUAL", <<Idx("SMALLPR", <<1>>, <<Lc>>), La>>), Node("EQUAL", <<Lc, La>>), Node("IN", <<Lc, Glob("X1")>>),
+             Node("EQUAL", <<Node("TUPLE", <<La, Lb>>), Lc>>), Node("EQUAL", <<Idx("SMALLPR", <<2>>, <<Lc>>), Lb>>)}
+SeedBindMix == {Node(q, <<Node("ENUMDECL", ds), d, p>>) : q \in Quant, ds \in {<<TupAB, Lc>>, <<Lc, TupAB>>}, d \in {Glob("S1"), X1xX1}, p \in MixPreds}
 Args == D0 \cup {Node("ENUM", <<Empty>>), One, Node("BOOLEAN", <<Glob("X1")>>), Node("ENUM", <<Glob("X1")>>), Node("PLUS", <<IntLit(1), IntLit(1)>>), Call("F1", <<Glob("X1")>>), Call("F3", <<Glob("X1")>>)}
 SeedCall == {Call(f, <<x>>) : f \in {"F1", "F3", "P1", "F2", "F7", "F9"}, x \in Args}
        \cup {Call(f, <<x, y>>) : f \in {"F2", "F1"}, x \in Args, y \in Args}
@@ -192,7 +198,7 @@ E3 == {Empty, Glob("X1"), Glob("C1"), IntLit(1), Glob("S2")}
 T3 == {Node("TUPLE", <<x, y>>) : x \in {Empty, Glob("X1")}, y \in {Empty, Glob("C1")}}
 SeedEnum3 == {Node("ENUM", <<x, y, z>>) : x \in E3, y \in E3, z \in E3} \cup {Node("ENUM", <<x, y, z>>) : x \in T3, y \in T3, z \in T3}
              \cup {Node("TUPLE", <<x, y, z>>) : x \in {Empty, Glob("X1")}, y \in {Empty, IntLit(1)}, z \in {Glob("C1"), Empty}}
-Seeds == UNION {SeedEnum3, SeedFilter, SeedRec, SeedImp, SeedBind, SeedCall, SeedScope, SeedAxiom, SeedLazy, SeedNested, SeedNested2, SeedSibling, SeedFunc}
+Seeds == UNION {SeedEnum3, SeedBindMix, SeedFilter, SeedRec, SeedImp, SeedBind, SeedCall, SeedScope, SeedAxiom, SeedLazy, SeedNested, SeedNested2, SeedSibling, SeedFunc}
 
 \* value classes of the context: sets and structures with data are values, a function has the class of its body
 GC0 == [n \in {"X1", "C1", "S1", "S2", "A1"} |-> "value"]
@@ -213,11 +219,12 @@ Init == /\ stage = 1
         /\ \/ c \in D0
            \/ c \in Seeds
            \/ \E o \in Un, x \in D0 : c = Node(o, <<x>>)
-           \/ \E o \in {"BIGPR", "SMALLPR"}, ix \in Ixs, x \in D0 : c = Idx(o, ix, <<x>>)
+           \/ \E o \in {"BIGPR", "SMALLPR"}, ix \in Ixs0, x \in D0 \cup {Node("TUPLE", <<IntLit(1), Glob("X1")>>)} : c = Idx(o, ix, <<x>>)
            \/ \E x \in D0 : c = Node("ENUM", <<x>>)
            \/ \E o \in SetBinLike \cup Preds, x \in D0, y \in D0 : c = Node(o, <<x, y>>)
            \/ \E q \in Quant \cup {"DECLARATIVE"}, d \in D0, b \in A1log : c = Node(q, <<La, d, b>>)
-Next == /\ stage = 1 /\ stage' = 2 /\ WrapSet # "none" /\ c.id # "FUNCDEF"
+\* (calls of F7 are not wrapped: F7[B(X1)] has 255 elements and one more power set is beyond what TLC can enumerate)
+Next == /\ stage = 1 /\ stage' = 2 /\ WrapSet # "none" /\ c.id # "FUNCDEF" /\ ~(c.id = "CALL" /\ c.s = "F7")
         /\ IF IsLogic(c)
            THEN \/ c' = Node("NOT", <<c>>) /\ c.id \notin Quant \cup {"NOT"}
                 \/ \E o \in LogBin, q \in SmallLog : c' = Node(o, <<c, q>>) \/ c' = Node(o, <<q, c>>)
